@@ -1,5 +1,6 @@
 import EinoV.Basic.JsonUtil
 import EinoV.Model.C12
+import EinoV.Model.C12Reg
 import EinoV.Expected.C12
 
 namespace EinoV.Oracle.C12
@@ -150,7 +151,72 @@ def parseCtx (c : Json) : JE Ctx := do
   pure { reg := Expected.C12.builtinReg (Expected.C12.registry ++ Expected.C12.composeRegistry) kinds ++ userReg
          structs := structs }
 
-/-- case: {"mode":"rt"|"dec", "reg":…, "kinds":…, "structs":…, "v":value | "is":tree} -/
+/-- the answer for one round trip of `lv` in the registry context `ctx` -/
+def rtAnswer (ctx : Ctx) (lv : LVal) : Json :=
+  let F := Expected.C12.facts
+  let v := lv.erase
+  let hdr : List (String × Json) :=
+    [("ctxok", .bool ctx.ok), ("wt", .bool (v.wt ctx)), ("supported", .bool (Supported ctx J0 v)),
+     ("regd", .bool (v.regd ctx)), ("coherent", .bool lv.coherent), ("shared", (lv.sharedCount : Json))]
+  match marshalL ctx J0 F lv with
+  | .error e => Json.mkObj (hdr ++ [("enc", Json.str (errClass e)), ("dec", Json.str "-")])
+  | .ok i =>
+    let hdr : List (String × Json) := hdr ++ [("enc", Json.str "ok"), ("is", renderIS i)]
+    match unmarshalTop ctx J0 F i with
+    | .error e => Json.mkObj (hdr ++ [("dec", Json.str (errClass e))])
+    | .ok v' =>
+      Json.mkObj (hdr ++ [("dec", Json.str "ok"), ("v", renderVal v'), ("ty", Json.str (tyStr v'.typeOf)),
+        ("sim", Json.bool (decide (v' ≈ v))), ("sameType", Json.bool (v'.typeOf == v.typeOf))])
+
+def outcomeStr : RegOutcome → String
+  | .accepted => "accepted"
+  | .emptyKey => "emptyKey"
+  | .keyTaken => "keyTaken"
+  | .typeTaken => "typeTaken"
+
+/-- mode `registry`: the steps of one process, in order, run through the state machine
+    `regStep` (with `Expected.C12.regFacts`) starting from eino's built-in registry plus the
+    case's `reg`.
+      {"op":"reg","key":k,"ty":T}   one call `GenericRegister[T](k)`
+          → {"out":"accepted"|"emptyKey"|"keyTaken"|"typeTaken","samePair":b,"ctxok":b}
+      {"op":"rt","v":value}         a round trip in the registry as it is now → the `rt` answer
+      {"op":"wr","h":n,"v":value}   `Marshal` now, the bytes are kept under handle `n`
+          → the `rt` answer (what reading them back at once gives)
+      {"op":"rd","h":n}             `Unmarshal` of the bytes kept under `n`, in the registry as it
+          is now → {"enc":class of the write,"dec":class,"v","ty","sim","sameType"} -/
+def runSteps (ctx : Ctx) (saved : List (Nat × GoVal × Except Err IS)) : List Json → JE (List Json)
+  | [] => pure []
+  | s :: rest => do
+    match (← J.str s "op") with
+    | "reg" =>
+      let op : RegOp := ⟨← J.str s "key", ← parseTy (← J.field s "ty")⟩
+      let same := Reg.samePair ctx.reg op
+      let (o, r') := regStep Expected.C12.regFacts ctx.reg op
+      let ctx' : Ctx := { ctx with reg := r' }
+      let a := Json.mkObj [("out", .str (outcomeStr o)), ("samePair", .bool same), ("ctxok", .bool ctx'.ok)]
+      pure (a :: (← runSteps ctx' saved rest))
+    | "rt" =>
+      let lv ← parseVal (← J.field s "v")
+      pure (rtAnswer ctx lv :: (← runSteps ctx saved rest))
+    | "wr" =>
+      let lv ← parseVal (← J.field s "v")
+      let h := J.natD s "h" 0
+      let e := marshalL ctx J0 Expected.C12.facts lv
+      pure (rtAnswer ctx lv :: (← runSteps ctx ((h, lv.erase, e) :: saved) rest))
+    | "rd" =>
+      let h := J.natD s "h" 0
+      let a : Json := match saved.find? (fun x => x.1 == h) with
+        | none => Json.mkObj [("enc", .str "-"), ("dec", .str "-")]
+        | some (_, _, .error e) => Json.mkObj [("ctxok", .bool ctx.ok), ("enc", .str (errClass e)), ("dec", .str "-")]
+        | some (_, v, .ok i) =>
+          match unmarshalTop ctx J0 Expected.C12.facts i with
+          | .error e => Json.mkObj [("ctxok", .bool ctx.ok), ("enc", .str "ok"), ("dec", .str (errClass e))]
+          | .ok v' => Json.mkObj [("ctxok", .bool ctx.ok), ("enc", .str "ok"), ("dec", .str "ok"), ("v", renderVal v'),
+              ("ty", .str (tyStr v'.typeOf)), ("sim", .bool (decide (v' ≈ v))), ("sameType", .bool (v'.typeOf == v.typeOf))]
+      pure (a :: (← runSteps ctx saved rest))
+    | o => throw s!"bad step {o}"
+
+/-- case: {"mode":"rt"|"dec"|"registry", "reg":…, "kinds":…, "structs":…, "v":value | "is":tree | "steps":[…]} -/
 def handle (c : Json) : JE Json := do
   let ctx ← parseCtx c
   let F := Expected.C12.facts
@@ -160,20 +226,11 @@ def handle (c : Json) : JE Json := do
     match unmarshalTop ctx J0 F i with
     | .ok v' => pure <| Json.mkObj [("dec", Json.str "ok"), ("v", renderVal v'), ("ty", .str (tyStr v'.typeOf))]
     | .error e => pure <| Json.mkObj [("dec", .str (errClass e))]
+  | "registry" =>
+    let answers ← runSteps ctx [] (J.arrD c "steps")
+    pure <| Json.mkObj [("ctxok0", .bool ctx.ok), ("steps", J.mkArr answers)]
   | _ =>
     let lv ← parseVal (← J.field c "v")
-    let v := lv.erase
-    let hdr : List (String × Json) :=
-      [("ctxok", .bool ctx.ok), ("wt", .bool (v.wt ctx)), ("supported", .bool (Supported ctx J0 v)),
-       ("regd", .bool (v.regd ctx)), ("coherent", .bool lv.coherent), ("shared", (lv.sharedCount : Json))]
-    match marshalL ctx J0 F lv with
-    | .error e => pure <| Json.mkObj (hdr ++ [("enc", Json.str (errClass e)), ("dec", Json.str "-")])
-    | .ok i =>
-      let hdr : List (String × Json) := hdr ++ [("enc", Json.str "ok"), ("is", renderIS i)]
-      match unmarshalTop ctx J0 F i with
-      | .error e => pure <| Json.mkObj (hdr ++ [("dec", Json.str (errClass e))])
-      | .ok v' =>
-        pure <| Json.mkObj (hdr ++ [("dec", Json.str "ok"), ("v", renderVal v'), ("ty", Json.str (tyStr v'.typeOf)),
-          ("sim", Json.bool (decide (v' ≈ v))), ("sameType", Json.bool (v'.typeOf == v.typeOf))])
+    pure (rtAnswer ctx lv)
 
 end EinoV.Oracle.C12
